@@ -1,7 +1,7 @@
 (* Model/Dispatch.v -- the single extracted entry point.  op numbers: <property>*100 + k *)
 From Coq Require Import ZArith List Bool.
 From B2Z Require Import Base.Prims Base.Sx Model.Partitions Model.IndexParse Model.BinArith Model.Schema Model.Overlap Model.Icf Model.RegionIndex Model.Plink Model.LocalAlleles.
-From B2Z Require Model.Regions.
+From B2Z Require Model.Regions Model.Workers.
 Import ListNotations.
 Open Scope Z_scope.
 
@@ -242,6 +242,19 @@ Definition d_C04 (k : Z) (arg : sx) : sx :=
   | _, _ => err_sx 2
   end.
 
+(* ---- C14 ---- *)
+Definition un_outcome (s : sx) : option Workers.outcome :=
+  match s with
+  | L [A 0] => Some Workers.Done | L [A 1; A e] => Some (Workers.Raised e) | L [A 2] => Some Workers.Broken | _ => None end.
+Definition d_C14 (k : Z) (arg : sx) : sx :=
+  match k with
+  | 0 => match un_list un_outcome arg with
+         | Some l => let r := Workers.driver l in
+                     L [A (match fst r with Workers.ROk => 0 | Workers.RReraise _ => 1 | Workers.RRuntime => 2 end); of_bool (snd r)]
+         | None => err_sx 1 end
+  | _ => err_sx 2
+  end.
+
 Definition dispatch (op : Z) (arg : sx) : sx :=
   let p := op / 100 in
   let k := op mod 100 in
@@ -253,6 +266,7 @@ Definition dispatch (op : Z) (arg : sx) : sx :=
   | 10 => d_C10 k arg
   | 12 => d_C12 k arg
   | 13 => d_C13 k arg
+  | 14 => d_C14 k arg
   | 16 => d_C16 k arg
   | 17 => d_C17 k arg
   | _ => err_sx 3
